@@ -103,12 +103,18 @@ static void value_case(T v, bool all_bases)
             parse_back<T>(t, v, base);
         }
     }
-    // default arguments: base 10 lower case
+    // default arguments: base 10, lower case
     {
         ST::string t;
         if constexpr (std::is_signed<T>::value) t = ST::string::from_int(v); else t = ST::string::from_uint(v);
         vrt::evals();
         if (vrt::str_of(t) != ref_text(v, 10, false)) viol(tn, "from_int:default-base", ref_text(v, 10, false));
+        for (int base : {16, 36, 11}) {
+            ST::string u;
+            if constexpr (std::is_signed<T>::value) u = ST::string::from_int(v, base); else u = ST::string::from_uint(v, base);
+            vrt::evals();
+            if (vrt::str_of(u) != ref_text(v, base, false)) viol(tn, "from_int:default-case", sfmt("base=%d got=%s want=%s", base, vrt::str_of(u).c_str(), ref_text(v, base, false).c_str()));
+        }
     }
     // deprecated 64-bit spellings
     if constexpr (sizeof(T) == 8) {
